@@ -16,7 +16,8 @@ extern crate aws_lc_sys as aws_lc;
 use aws_lc::{
     BN_bin2bn, BN_bn2bin, BN_bn2bin_padded, BN_num_bytes, EC_GROUP, EC_KEY, EC_KEY_get0_private_key,
     EC_KEY_get0_public_key, EC_KEY_new, EC_KEY_set_group, EC_KEY_set_private_key,
-    EC_KEY_set_public_key, EC_POINT, EC_POINT_mul, EC_POINT_new, EC_POINT_oct2point,
+    EC_KEY_set_public_key, EC_POINT, EC_POINT_is_at_infinity, EC_POINT_mul, EC_POINT_new,
+    EC_POINT_oct2point,
     EC_POINT_point2oct, EC_group_p384, ECDH_compute_key, ECDSA_SIG, ECDSA_SIG_from_bytes,
     ECDSA_SIG_get0, ECDSA_SIG_new, ECDSA_SIG_set0, ECDSA_SIG_to_bytes, ECDSA_sign, ECDSA_size,
     ECDSA_verify,
@@ -278,6 +279,10 @@ impl VerifyingKey {
 
         let mut p = LcPtr::new(unsafe { EC_POINT_new(*g) })?;
         if unsafe { EC_POINT_oct2point(*g, *p.as_mut(), b.as_ptr(), b.len(), null_mut()) } != 1 {
+            return Err(PasetoError::InvalidKey);
+        }
+        // the point at infinity (SEC1 encoding `00`) is not a public key
+        if unsafe { EC_POINT_is_at_infinity(*g, *p.as_const()) } != 0 {
             return Err(PasetoError::InvalidKey);
         }
 
